@@ -535,6 +535,17 @@ class T2(T):
                 out.append(".abort")
             elif name in self.spec["cond_calls"]:
                 raise self.U(f"{name} called outside a condition")
+            elif name in self.spec.get("oblige_calls", {}):
+                # a call the function is obliged to make: (argument index, {argument text: register}) or a plain register
+                ob = self.spec["oblige_calls"][name]
+                if isinstance(ob, tuple):
+                    a_txt = re.sub(r"\s+", "", self.text(strip(e["inner"][1 + ob[0]]), 200))
+                    reg_ = ob[1].get(a_txt)
+                else:
+                    reg_ = ob
+                out.append(f"(.ev {self.site(e, 'obliged ' + str(name))} 0)")
+                if reg_ is not None:
+                    after.append(f"(.set {reg_} 1)")
             elif name in self.spec.get("marked_by_arg", {}):
                 idx, table = self.spec["marked_by_arg"][name]
                 a_txt = re.sub(r"\s+", "", self.text(strip(e["inner"][1 + idx]), 200))
@@ -564,6 +575,9 @@ class T2(T):
                 kind_ = (self.spec.get("marked_stores") or {}).get(re.sub(r"\s+", "", self.text(e, 200)), 0)
                 kind_ = getattr(self, "kind_by_id", {}).get(e.get("id"), kind_)
                 out.append(f"(.ev {self.site(e, 'store')} {kind_})")
+                reg_ = (self.spec.get("oblige_stores") or {}).get(re.sub(r"\s+", "", self.text(e, 200)))
+                if reg_ is not None:
+                    after.append(f"(.set {reg_} 1)")
         elif k == "UnaryOperator" and e.get("opcode") in ("++", "--"):
             l = strip(e["inner"][0])
             if self.local_reg(l) is not None:
@@ -1012,4 +1026,54 @@ def translate_turnsend(spec, fdecl, src, consts, U, root):
         out.append(f"def {n} : Nat := {v}")
     out += [f"def compatValues : List Nat := [{', '.join(str(v) for v in sorted(en.values()))}]",
             "", "end Nice.Gen." + spec["lean_ns"], ""]
+    return "\n".join(out), {"sites": len(t.sites)}
+
+
+# ---------------------------------------------------------------------------------------------------------------------
+# obligations (C14): what a restart must have done by the time it returns.  A register is set to 1 when the obliged call /
+# store is executed; the theorems say every return is reached with all of them set.
+# ---------------------------------------------------------------------------------------------------------------------
+SPEC_CREDS = {
+    "lean_ns": "InitCredentials", "file": "agent/stream.c", "fn": "nice_stream_initialize_credentials",
+    "locals": {}, "offset": {}, "cond_calls": {}, "bool_result_calls": set(), "pure": set(),
+    "oblige_calls": {"nice_rng_generate_bytes_print": (2, {"stream->local_ufrag": 0, "stream->local_password": 1})},
+    "oblige_stores": {"stream->remote_ufrag[0]=0": 2, "stream->remote_password[0]=0": 3},
+}
+SPEC_RESTART = {
+    "lean_ns": "StreamRestart", "file": "agent/stream.c", "fn": "nice_stream_restart",
+    "locals": {}, "offset": {}, "cond_calls": {}, "bool_result_calls": set(), "pure": set(),
+    "oblige_calls": {"conn_check_prune_stream": 0, "nice_stream_initialize_credentials": 1,
+                     "nice_component_restart": 2,
+                     "agent_signal_component_state_change": (3, {"NICE_COMPONENT_STATE_GATHERING": 3})},
+}
+
+
+def translate_oblige(spec, fdecl, src, consts, U, root, with_loop_body=False):
+    t = T2(spec, fdecl, src, consts, U, {})
+    prog = t.top()
+    out = [f"/- GENERATED by tools/extract_flow.py from {spec['file']} {spec['fn']} — do not edit.",
+           "   Obligation skeleton (see lean/Nice/Model/Flow.lean): register k is set to 1 when the k-th obliged call / store executes:"]
+    for name, ob in spec.get("oblige_calls", {}).items():
+        if isinstance(ob, tuple):
+            for a, r in ob[1].items():
+                out.append(f"     r{r} = call {name} (.. {a} ..)")
+        else:
+            out.append(f"     r{ob} = call {name}")
+    for a, r in (spec.get("oblige_stores") or {}).items():
+        out.append(f"     r{r} = store {a}")
+    out.append("   Sites:")
+    body_prog = None
+    if with_loop_body:
+        loops = [n for n in walk(t.body) if n.get("kind") in ("ForStmt", "WhileStmt")]
+        if len(loops) != 1:
+            raise U(f"expected exactly one loop, found {len(loops)}")
+        lb = loops[0]["inner"][4] if loops[0]["kind"] == "ForStmt" else loops[0]["inner"][1]
+        body_prog = t.stmt(lb)
+    for i, d in enumerate(t.sites):
+        out.append(f"     {i} — {d}".replace("/-", "/ -").replace("-/", "- /"))
+    out += ["-/", "import Nice.Model.Flow", "namespace Nice.Gen." + spec["lean_ns"], "open Nice.Flow", "",
+            "def prog : Stmt :=", prog, ""]
+    if body_prog is not None:
+        out += ["/-- one iteration of the function's only loop -/", "def loopBody : Stmt :=", body_prog, ""]
+    out += ["end Nice.Gen." + spec["lean_ns"], ""]
     return "\n".join(out), {"sites": len(t.sites)}
